@@ -754,6 +754,13 @@ func genC16Case(t *rapid.T) C16Case {
 						}
 					}
 					nr.Fields["comm"] = r.Fields["comm"]
+					if chance(t, "otherstate", 3) {
+						// the same access once allowed, once audited: two rules, two qualifiers
+						nr.State = r.State
+						if _, ok := nr.Fields["apparmor"]; ok {
+							nr.Fields["apparmor"] = r.State
+						}
+					}
 					r = nr
 				}
 			}
